@@ -126,6 +126,8 @@ def natural_failure(cfg):
     """first configured (not injected) failure on the child side, as (step, errno|0)"""
     if cfg["cwd"] == "missing":
         return ("chdir", 2)
+    if cfg["uid"] == "other" and cfg["gid"] == "other":
+        return ("setgid", 1)
     for c in cfg["pre"]:
         if c != 0:
             return ("pre_exec", c if c > 0 else 0)
@@ -158,6 +160,13 @@ def select_plans(plans, tier, rng):
 # ------------------------------------------------------------------------------------------------
 # one real execution
 # ------------------------------------------------------------------------------------------------
+OTHER_ID = 65534   # nobody / nogroup
+
+
+def idval(setting, own):
+    return {"unset": None, "own": own, "other": OTHER_ID}[setting]
+
+
 HELPERS = ["h7", "h7", "h0", "k9", "h7", "h3", "k15"]   # exit(7) / exit(0) / SIGKILL / exit(3) / SIGTERM
 
 
@@ -173,8 +182,8 @@ def concretise(plan, rundir, variant, idx):
     io = list(cfg["io"])
     names = ["stdin", "stdout", "stderr"]
     dplan = {"bin": binp, "args": ARGS[:cfg["nargs"]], "env": ENVS[:cfg["nenv"]] if cfg["nenv"] else None,
-             "cwd": cwd, "uid": os.getuid() if cfg["uid"] == "own" else None,
-             "gid": os.getgid() if cfg["gid"] == "own" else None, "pgroup": 0 if cfg["pg"] == "own" else None,
+             "cwd": cwd, "uid": idval(cfg["uid"], os.getuid()), "gid": idval(cfg["gid"], os.getgid()),
+             "pgroup": 0 if cfg["pg"] == "own" else None,
              "pre_exec": list(cfg["pre"]), "open": [], "wait": "try" if idx % 10 == 2 else True}
     for s in range(3):
         m = io[s]
@@ -188,8 +197,8 @@ def concretise(plan, rundir, variant, idx):
     c = {"bin": binp, "args": dplan["args"], "envmode": "provided" if cfg["nenv"] else "default",
          "envs": ENVS[:cfg["nenv"]], "start": start, "penv": ["%s=%s" % kv for kv in PENV.items()], "envAlt": env_alt,
          "cwd": cwd if cwd else "unset", "pcwd": os.path.realpath(rundir),
-         "uid": os.getuid() if cfg["uid"] == "own" else -1, "puid": os.getuid(),
-         "gid": os.getgid() if cfg["gid"] == "own" else -1, "pgid": os.getgid(),
+         "uid": -1 if dplan["uid"] is None else dplan["uid"], "puid": os.getuid(),
+         "gid": -1 if dplan["gid"] is None else dplan["gid"], "pgid": os.getgid(),
          "pg": 0 if cfg["pg"] == "own" else -1, "io": io, "pre": list(cfg["pre"])}
     dplan["envnone"] = False
     if variant == "noalloc" and idx % 2 == 1:
@@ -202,6 +211,9 @@ def concretise(plan, rundir, variant, idx):
         planned.append({"proc": "C", "step": "chdir", "errno": 2})
     if cfg["prog"] == "missing":
         planned.append({"proc": "C", "step": "execve", "errno": 2})
+    if cfg["uid"] == "other" and cfg["gid"] == "other":
+        # as coded setgid follows setuid: the kernel refuses it once the privileges are gone
+        planned.append({"proc": "C", "step": "setgid", "errno": 1})
     for code in cfg["pre"]:
         if code:
             planned.append({"proc": "C", "step": "pre_exec", "errno": code if code > 0 else 0})
@@ -234,6 +246,7 @@ def execute(job):
     if os.path.isdir(rundir):
         shutil.rmtree(rundir)
     os.makedirs(os.path.join(rundir, "dirA"))
+    os.chmod(rundir, 0o777)      # the helper may run as another user and must be able to write its dump
     helper = os.path.join(rundir, helper_name(job["idx"]))
     try:
         os.link(os.path.join(job["tools"], "spawn_helper"), helper)
